@@ -8,3 +8,5 @@ specfn("isum", "a:int[], lo:int, hi:int", "int",
        [("hi <= lo", "0"), (None, "isum(a, lo, hi - 1) + a[hi - 1]")])
 specfn("cnt_true", "a:bool[], lo:int, hi:int", "int",
        [("hi <= lo", "0"), (None, "cnt_true(a, lo, hi - 1) + ite(a[hi - 1], 1, 0)")])
+specfn("cnteq", "x:real[], v:real, hi:int", "int",
+       [("hi <= 0", "0"), (None, "cnteq(x, v, hi - 1) + ite(x[hi - 1] == v, 1, 0)")], doc="number of cells < hi equal to v")
